@@ -79,6 +79,8 @@ def run_case(args):
     paths = 0
     outcomes = {}
     nreplays = 0
+    unknown_probes = 0
+    from fractions import Fraction
     import signal
 
     class CaseTimeout(BaseException):
@@ -144,6 +146,24 @@ def run_case(args):
                 elif r == 'unknown':
                     rec['verdict'] = 'inconclusive'
                     rec['why'] = 'solver unknown/timeout (%s)' % (model if isinstance(model, str) else 'budget %ss' % case.timeout)
+                    # the solver could neither prove the claim nor produce a model.  A pass is never inferred from
+                    # this; but to avoid missing a real violation we try a few concrete inputs on the unpatched
+                    # code (an ordinary replay with generated inputs).  Only a reproduced failure of THIS claim counts.
+                    if not case.lemma and not case.expect_sat and unknown_probes < 2:
+                        unknown_probes += 1
+                        import random as _rnd
+                        rg = _rnd.Random(hash((case.name, cl.label)) & 0xffff)
+                        for attempt in range(4):
+                            guess = {}
+                            for nme in names:
+                                if P.var_meta(nme).get('kind') == 'input':
+                                    guess[nme] = str(Fraction(rg.randint(-12, 12), 8) + (Fraction(1, 3) if attempt % 2 else 0))
+                            rep = replay_model(cid, case, guess, tier, seed)
+                            labels = [f[0] for f in (rep.get('fails') or [])]
+                            if cl.label in labels:
+                                rec.update(verdict='violation', model=guess, replay=rep,
+                                           why='solver unknown; counterexample found by concrete probing and replayed')
+                                break
                 elif r == 'unsat':
                     if case.cvc5:
                         r2, _, s2, _ = smt.solve(text, min(case.timeout, 60), want_model=False, solver="cvc5")
